@@ -394,6 +394,66 @@ def assigned_names(stmts) -> List[str]:
     return out
 
 
+_INPLACE_METHODS = {"append", "extend", "add", "update", "insert", "pop", "remove", "clear", "discard", "setdefault"}
+
+
+def mutated_fields(stmts):
+    """(variable, field) pairs `v.f` that the statements assign, subscript-assign or update through an in-place method."""
+    out = []
+
+    def field_of(node):
+        if isinstance(node, ast.Attribute) and isinstance(node.value, ast.Name):
+            return (node.value.id, node.attr)
+        return None
+
+    def note(x):
+        if x is not None and x not in out:
+            out.append(x)
+
+    for st in stmts:
+        for node in ast.walk(st):
+            targets = []
+            if isinstance(node, ast.Assign):
+                targets = node.targets
+            elif isinstance(node, (ast.AugAssign, ast.AnnAssign)):
+                targets = [node.target]
+            for t in targets:
+                note(field_of(t))
+                if isinstance(t, ast.Subscript):
+                    note(field_of(t.value))
+            if isinstance(node, ast.Call) and isinstance(node.func, ast.Attribute) and node.func.attr in _INPLACE_METHODS:
+                note(field_of(node.func.value))
+    return out
+
+
+def names_in_calls(stmts):
+    out = []
+    for st in stmts:
+        for node in ast.walk(st):
+            if isinstance(node, ast.Call):
+                cands = list(node.args) + [k.value for k in node.keywords]
+                if isinstance(node.func, ast.Attribute):
+                    cands.append(node.func.value)
+                for c in cands:
+                    if isinstance(c, ast.Name) and c.id not in out:
+                        out.append(c.id)
+    return out
+
+
+def locally_mutated_containers(stmts):
+    out = []
+    for st in stmts:
+        for node in ast.walk(st):
+            if isinstance(node, ast.Call) and isinstance(node.func, ast.Attribute) and node.func.attr in _INPLACE_METHODS \
+                    and isinstance(node.func.value, ast.Name):
+                out.append(node.func.value.id)
+            targets = node.targets if isinstance(node, ast.Assign) else [node.target] if isinstance(node, ast.AugAssign) else []
+            for t in targets:
+                if isinstance(t, ast.Subscript) and isinstance(t.value, ast.Name):
+                    out.append(t.value.id)
+    return out
+
+
 def exec_for(engine, ctx, st: ast.For, env: Env):
     it = engine.eval(ctx, st.iter, env)
     if isinstance(it, Obj) and it.cls.lookup("__iter__") is not None:
@@ -465,7 +525,8 @@ def exec_for_invariant(engine, ctx, st: ast.For, env: Env, it, inv):
         # `carried`: the loop-carried variables by name, so that an invariant can speak about "the accumulator" without
         # depending on what the code calls it
         d_.update(i=i, seq=it, lo=lo, hi=hi, ctx=ctx, carried={k: env.vars[k] for k in modified if k in env.vars},
-                  enclosing=list(getattr(ctx, "loop_elems", [])))  # current elements of the enclosing invariant loops
+                  enclosing=list(getattr(ctx, "loop_elems", [])),  # current elements of the enclosing invariant loops
+                  old=getattr(ctx, "entry_old", None))  # pre-state of the function (see symexec.make_old_view)
         ns = NS(**d_)
         trig = getattr(inv, "triggers", None)
         if trig is not None:
@@ -492,6 +553,29 @@ def exec_for_invariant(engine, ctx, st: ast.For, env: Env, it, inv):
                 env.vars[n].fresh = getattr(old_v, "fresh", False)  # still the collection this function allocated
         else:
             env.vars[n] = fresh_like(engine, ctx, n, env.vars[n])
+    # fields of materialised (mutable) objects that the body assigns or updates in place are loop-carried as well
+    for (vn, fn) in mutated_fields(st.body):
+        o = env.vars.get(vn)
+        if isinstance(o, Obj) and o.fields is not None and fn in o.fields:
+            kind, _ = engine.field_kind(o.cls, fn)
+            if kind is None:
+                raise EngineLimit("loop body modifies %s.%s which has no declared kind" % (vn, fn))
+            o.fields[fn] = ctx.fresh_kind("loop.%s.%s" % (vn, fn), kind)
+    # materialised objects of mutable classes that the body hands to calls (receiver or argument): callees may modify
+    # their declared-mutable fields, so these are loop-carried too
+    for vn in names_in_calls(st.body):
+        o = env.vars.get(vn)
+        if isinstance(o, Obj) and o.fields is not None and engine._is_mutable(o.cls):
+            for c in o.cls.mro():
+                cs = engine.reg.classes.get(c.qualname)
+                for fn in (cs.mutable if cs else []):
+                    kind, _ = engine.field_kind(o.cls, fn)
+                    if kind is not None and fn in o.fields:
+                        o.fields[fn] = ctx.fresh_kind("loop.%s.%s" % (vn, fn), kind)
+    # local lists / dicts that the body grows in place: their contents are not tracked across a symbolic loop
+    for vn in locally_mutated_containers(st.body):
+        if vn not in kinds and isinstance(env.vars.get(vn), (PyList, PyDict)):
+            env.vars[vn] = V.Opaque("container built in a loop over a symbolic domain")
     i = ctx.fresh("iter", z3.IntSort())
     ctx.assume(i >= lo)
     which = ctx.choose(2)
